@@ -593,3 +593,18 @@ func isTupleWithError(t types.Type) bool {
 	}
 	return false
 }
+
+// Str0 names a statement kind briefly.
+func Str0(s ast.Stmt) string {
+	switch x := s.(type) {
+	case *ast.IfStmt:
+		return "if"
+	case *ast.ExprStmt:
+		return "call " + Str(x.X)
+	case *ast.IncDecStmt:
+		return Str(x.X) + x.Tok.String()
+	case *ast.AssignStmt:
+		return "assignment to " + Str(x.Lhs[0])
+	}
+	return "statement"
+}
